@@ -80,7 +80,7 @@ def gen_partition(modname, fname, pins, exclude):
   src = '\n'.join(lines) + '\n'
   h = hashlib.sha1(src.encode()).hexdigest()[:16]
   os.makedirs(os.path.join(WORK, 'parts'), exist_ok=True)
-  pmod = 'part_%s_%s' % (fname, h)
+  pmod = 'part_%s_%s_%d' % (fname, h, os.getpid())   # private to this process
   path = os.path.join(WORK, 'parts', pmod + '.py')
   tmp = path + '.%d' % os.getpid()
   with open(tmp, 'w') as f:
@@ -111,6 +111,8 @@ def main(argv):
       report_all=True)
   msgs = run_checkables(analyze_function(part, opts))
   states = [m.state.name for m in msgs]
+  if not msgs:
+    raise SystemExit('CrossHair produced no verdict for %s (no conditions found?)' % fname)
   if any(s in ('POST_FAIL', 'EXEC_ERR', 'POST_ERR', 'PRE_INVALID', 'SYNTAX_ERR',
                'IMPORT_ERR') for s in states):
     verdict = 'REFUTED'
